@@ -8,3 +8,5 @@ import Tbx.Props.C02
 #print axioms Tbx.Props.C02.judge_checker_eq
 #print axioms Tbx.Props.C02.ek_ff_assignment_canonical
 #print axioms Tbx.Props.C02.dinic_assignment_canonical
+#print axioms Tbx.Props.C02.assignment_returns
+#print axioms Tbx.Props.C02.solvers_return_canonical_cut
